@@ -3,48 +3,51 @@ mod world;
 mod shim;
 mod resp;
 mod sim;
+mod scenario;
+mod harness;
+mod driver;
+mod checks;
+mod model;
 
-use resp::R;
-use sim::*;
+use checks::Tier;
 
-fn smoke(seed: u64) -> u64 {
-    let mut s = Sim::new(seed, seed);
-    let dir = s.new_dir("a");
-    let inst = s.boot(&ServerCfg::default(), &dir).expect("boot");
-    let c = s.connect(inst);
-    let mut replies = Vec::new();
-    let cmds: Vec<Vec<&str>> = vec![vec!["PING"], vec!["SET", "k", "v", "PX", "1500"], vec!["GET", "k"], vec!["SADD", "s", "a", "b", "c", "d"], vec!["SPOP", "s"], vec!["SMEMBERS", "s"], vec!["PTTL", "k"]];
-    for cmd in &cmds {
-        let args: Vec<Vec<u8>> = cmd.iter().map(|x| x.as_bytes().to_vec()).collect();
-        let b = resp::encode_cmd(&args);
-        let half = b.len() / 2;
-        s.write(c, &b[..half]);
-        s.turn(inst);
-        s.write(c, &b[half..]);
-        for _ in 0..3 { s.turn(inst); s.read(c); if !s.clients[c].rx.is_empty() { break; } }
-        let (r, n) = resp::parse(&s.clients[c].rx).expect("reply");
-        s.clients[c].rx.drain(..n);
-        replies.push(r);
-        s.advance(300_000_000);
+fn disable_aslr_and_reexec() {
+    // pointer-ordered code paths replay identically only with a fixed address-space layout
+    unsafe {
+        let cur = libc::personality(0xffffffff);
+        if cur >= 0 && (cur & libc::ADDR_NO_RANDOMIZE) == 0 && std::env::var("DETSIM_REEXEC").is_err() {
+            libc::personality((cur | libc::ADDR_NO_RANDOMIZE) as libc::c_ulong);
+            std::env::set_var("DETSIM_REEXEC", "1");
+            let exe = std::ffi::CString::new(std::env::current_exe().unwrap().to_str().unwrap()).unwrap();
+            let args: Vec<std::ffi::CString> = std::env::args().map(|a| std::ffi::CString::new(a).unwrap()).collect();
+            let mut argv: Vec<*const libc::c_char> = args.iter().map(|a| a.as_ptr()).collect();
+            argv.push(std::ptr::null());
+            libc::execv(exe.as_ptr(), argv.as_ptr());
+        }
     }
-    s.advance(2_000_000_000);
-    let args: Vec<Vec<u8>> = vec![b"GET".to_vec(), b"k".to_vec()];
-    s.write(c, &resp::encode_cmd(&args));
-    s.turn(inst); s.read(c);
-    let (r, _) = resp::parse(&s.clients[c].rx).expect("reply");
-    replies.push(r);
-    if seed == 1 { for r in &replies { raw::write_all(1, format!("{}\n", r.short()).as_bytes()); } }
-    let _ = R::Nil;
-    s.cleanup();
-    world::g().hash
 }
 
 fn main() {
     let args: Vec<String> = std::env::args().collect();
-    if args.len() >= 2 && args[1] == "smoke" {
-        let seed: u64 = args.get(2).and_then(|x| x.parse().ok()).unwrap_or(1);
-        let h = smoke(seed);
-        raw::write_all(1, format!("hash {:016x} turns\n", h).as_bytes());
-        raw::exit_group(0);
-    }
+    let cmd = args.get(1).map(|s| s.as_str()).unwrap_or("");
+    let code = match cmd {
+        "zygote" => { disable_aslr_and_reexec(); driver::zygote_main(&args[2]) }
+        "check" => {
+            let tier = if args.get(3).map(|s| s.as_str()) == Some("thorough") { Tier::Thorough } else { Tier::Quick };
+            driver::run_check(&args[2], tier)
+        }
+        "replay" => driver::run_replay(&args[2]),
+        "gen" => {
+            // print the scenario of run index i of a check (debugging aid)
+            let def = checks::find(&args[2]).expect("check");
+            let idx: u64 = args[3].parse().unwrap();
+            let base: u64 = std::env::var("VERIF_SEED").ok().and_then(|x| x.parse().ok()).unwrap_or(1);
+            let sc = (def.gen)(scenario::derive_seed(base, def.id, idx), idx, Tier::Quick);
+            println!("{}", serde_json::to_string_pretty(&sc).unwrap());
+            0
+        }
+        "list" => { for d in checks::all() { println!("{}", d.id); } 0 }
+        _ => { eprintln!("usage: detsim check <ID> quick|thorough | replay <file> | gen <ID> <idx> | list"); 2 }
+    };
+    std::process::exit(code);
 }
